@@ -114,7 +114,8 @@ def add_cycle(r, n, edges):
     edges = list(edges)
     if not edges or r.random() < 0.15:
         v = r.randint(1, n)
-        edges.insert(r.randint(0, len(edges)), (v, v))
+        if (v, v) not in edges:
+            edges.insert(r.randint(0, len(edges)), (v, v))
         return edges
     a, b = r.choice(edges)
     tip = b
@@ -485,6 +486,9 @@ def plan(b, kinds, r, tier):
 
 
 
+_FAIL_RE = re.compile(r'^<<\s*"@@",\s*(\d+),\s*"([^"]*)",\s*"([^"]*)",\s*(.*?)\s*>>$', re.S)
+
+
 def _tlc_in(scratch, *a, **k):
     """run_tlc with TLC's metadir inside our scratch directory (not a shared /tmp/tlcmeta_*)"""
     import tempfile
@@ -525,11 +529,15 @@ def judge_batch(scratch, name, entries, nrecords, workers=1):
         while txt.count("<<") > txt.count(">>") and k < len(lines):
             txt += " " + lines[k].strip()
             k += 1
+        m = _FAIL_RE.match(txt)
+        if m:
+            # the expected value is parsed later, only for the examples that are kept
+            fails.append((int(m.group(1)), m.group(2), m.group(3), m.group(4)))
+            continue
         val = tlaval.parse(txt)
-        if val[0] == "@@done":
-            done.append(val)
-        else:
-            fails.append((val[1], val[2], val[3], val[4]))
+        if val[0] != "@@done":
+            raise tlc.TLCMachineryError(f"DagTrace batch {name}: unparsable verdict line {txt[:300]}")
+        done.append(val)
     counts, ngraphs, nfail = {}, 0, 0
     for _, _chain, glen, cnt, nf in done:
         ngraphs += glen
@@ -560,7 +568,20 @@ KIND_CLASS = {"graph": "Graph", "task": "TaskGraph", "job": "JobGraph"}
 
 
 def _fail_order(f):
-    return (f["size"], json.dumps(f["detail"]["build"], sort_keys=True), f["detail"]["call"])
+    b = f["detail"]["build"]
+    return (f["size"], b["style"], b["nodes"], b["edges"], f["detail"]["call"])
+
+
+def _call_text(method, args, w):
+    if method == "get_longest_path":
+        return f"get_longest_path(weights=node -> {w}[node - 1])" if w else "get_longest_path()"
+    if method in ("critical_path_runtime", "completion_time"):
+        return f"{method}  # slowest runtimes of nodes 1..n: {w}"
+    if method == "depth_first_all":
+        return "depth_first()"
+    if method == "breadth_first_from":
+        return f"breadth_first({args[0]})"
+    return f"{method}({', '.join(map(str, args))})"
 
 
 def finding_key(kind, method, reason):
@@ -615,13 +636,13 @@ def run_batch(name, parts, tier, workers):
                               "nodes": b["nodes"], "edges": b["edges"]}
                     ),
                     "build": b,
-                    "call": f"{method}({', '.join(map(str, cargs))})",
+                    "call": _call_text(method, cargs, w),
                     "method": method,
                     "args": cargs,
                     "weights": w,
                     "node_runtimes": bw,
                     "got": got,
-                    "expected": _printable(exp),
+                    "expected": exp,
                     "part": pname,
                 },
             }
@@ -632,6 +653,10 @@ def run_batch(name, parts, tier, workers):
         g = grouped.setdefault((f["clause"], f["key"]), {"count": 0, "examples": []})
         g["count"] += 1
         if len(g["examples"]) < 4:
+            try:
+                f["detail"]["expected"] = _printable(tlaval.parse(f["detail"]["expected"]))
+            except tlaval.ParseError:
+                pass
             g["examples"].append(f)
     failing_graphs = {id(f["detail"]["build"]) for f in out_f}
     sample = None
@@ -644,8 +669,8 @@ def run_batch(name, parts, tier, workers):
             "records": [
                 {"method": c["method"], "args": c["args"], "w": c["w"],
                  "result": c["result"] if not c["raised"] else None, "raised": c["raised"]}
-                for c in e["calls"][:6]
-            ],
+                for c in {c["method"]: c for c in reversed(e["calls"])}.values()
+            ][:8],
             "verdict": "accepted by DagTrace" if id(builds[gi][0]) not in failing_graphs else "see violations",
         }
     return {
@@ -719,11 +744,11 @@ def run(tier: str) -> CheckResult:
     q = tier == "quick"
     jobs = []
     if q:
-        jobs.append(("mc", "DagMC/N4W2", {"MCN": 4, "MCW": 2, "MCLoops": False}, 2))
-        jobs.append(("mc", "DagMC/N3W3loops", {"MCN": 3, "MCW": 3, "MCLoops": True}, 1))
+        jobs.append(("mc", "DagMC/N4W2", {"MCN": 4, "MCW": 2, "MCLoops": False, "MCUpper": False}, 3))
+        jobs.append(("mc", "DagMC/N3W3loops", {"MCN": 3, "MCW": 3, "MCLoops": True, "MCUpper": False}, 1))
     else:
-        jobs.append(("mc", "DagMC/N5W2", {"MCN": 5, "MCW": 2, "MCLoops": False}, 4))
-        jobs.append(("mc", "DagMC/N4W3loops", {"MCN": 4, "MCW": 3, "MCLoops": True}, 2))
+        jobs.append(("mc", "DagMC/N4W3loops", {"MCN": 4, "MCW": 3, "MCLoops": True, "MCUpper": False}, 2))
+        jobs.append(("mc", "DagMC/N5W2upper", {"MCN": 5, "MCW": 2, "MCLoops": False, "MCUpper": True}, 2))
     labelled_dags(4)  # computed once before forking
     if not q:
         labelled_dags(5)
@@ -734,6 +759,7 @@ def run(tier: str) -> CheckResult:
     outs = parallel(_job, jobs, procs=len(jobs) if q else 7)
 
     per_method, per_clause, batches = {}, {}, []
+    batch_samples = []
     by_key = {}
     graphs = cyc = 0
     for o in outs:
@@ -761,8 +787,8 @@ def run(tier: str) -> CheckResult:
             t["examples"] += g["examples"]
         batches.append({"name": o["name"], "parts": o["per_part"], "graphs": o["graphs"], "records": o["records"],
                         "wall_exercise_s": o["wall_exercise_s"], "wall_tlc_s": o["wall_tlc_s"]})
-        if o["sample"] and len(res.samples) < 3:
-            res.samples.append(o["sample"])
+        if o["sample"] and len(batch_samples) < 3:
+            batch_samples.append(o["sample"])
 
     unsupported = [ck for ck in by_key if ck[0].startswith("spec.")]
     if unsupported:
@@ -795,6 +821,7 @@ def run(tier: str) -> CheckResult:
         res.samples.append({"violation": clause, "key": key, "construction": detail["construction"],
                             "call": detail["call"], "weights": detail["weights"], "got": detail["got"],
                             "expected": detail["expected"]})
+    res.samples = res.samples[:5] + batch_samples
     if info:
         res.extra["informational_outside_statement"] = info
         for k, v in info.items():
